@@ -10,7 +10,7 @@ as UTF-16 code units; `wfLit`: the literal is valid in the given mode).  Bytes a
 -/
 namespace Verif.Props.C01E
 open Verif.JsStrBase Verif.Spec.JsStringSem Verif.Model.JsString
-open Verif.Proofs.JsString (Guard IsQ)
+open Verif.Proofs.JsString (NoNul IsQ)
 
 /-! ## the string value -/
 
@@ -25,15 +25,16 @@ def template_value_preserved : Prop :=
   ∀ (strict : Bool) (s : List Nat), s.head? = some 96 → wfLit strict s →
     decodeLit strict (templateLit s) = decodeLit strict s
 
-/-- proved for every literal whose body contains no backslash followed by a digit (`Guard`: decidable, closed under
-    suffixes) — that is, everything except `\0`, the legacy octal escapes and `\8` `\9`.  Covered: every quote choice
-    incl. the switch to a template, quote and `${` escaping, `\xHH`, `\uHHHH` and `\u{…}` (decoded to UTF-8, re-escaped
-    or kept), line continuations, `\n` `\r` `\t` `\b` `\f` `\v`, identity escapes, raw UTF-8, raw CR / LF / CRLF in
-    templates, the `</script>` guard.  The digit escapes are covered by the exhaustive correspondence + V8 oracle of
-    the harness, not by this theorem. -/
+/-- proved for every literal whose body contains no backslash followed by `0` (`NoNul`: decidable, closed under
+    suffixes) — that is, everything except `\0` and the escapes `\00`, `\000`, `\0d…` that start with it.  Covered: every
+    quote choice incl. the switch to a template and its gate, quote and `${` escaping, `\xHH`, `\uHHHH` and `\u{…}`
+    (decoded to UTF-8, re-escaped or kept), the legacy octal escapes `\1`…`\377` (decoded, re-escaped, rewritten to
+    `\xHH`, or kept as `\74`), `\8` `\9`, line continuations, `\n` `\r` `\t` `\b` `\f` `\v`, identity escapes, raw UTF-8, raw
+    CR / LF / CRLF in templates, the `</script>` guard.  The NUL escapes (the `afterNul` logic of the code) are covered
+    by the exhaustive correspondence + V8 oracle of the harness, not by this theorem. -/
 theorem string_value_preserved_partial (strict allowTemplate : Bool) (s : List Nat)
     (hq : s.head? = some 39 ∨ s.head? = some 34) (hw : wfLit strict s)
-    (hg : Guard ((s.drop 1).dropLast) = true) :
+    (hg : NoNul ((s.drop 1).dropLast) = true) :
     decodeLit strict (minifyString allowTemplate s) = decodeLit strict s := by
   unfold wfLit at hw
   cases hv : decodeLit strict s with
@@ -41,7 +42,7 @@ theorem string_value_preserved_partial (strict allowTemplate : Bool) (s : List N
   | some v => exact Verif.Proofs.JsString.minifyString_value hq hv hg
 
 theorem template_value_preserved_partial (strict : Bool) (s : List Nat)
-    (hq : s.head? = some 96) (hw : wfLit strict s) (hg : Guard ((s.drop 1).dropLast) = true) :
+    (hq : s.head? = some 96) (hw : wfLit strict s) (hg : NoNul ((s.drop 1).dropLast) = true) :
     decodeLit strict (templateLit s) = decodeLit strict s := by
   unfold wfLit at hw
   cases hv : decodeLit strict s with
@@ -50,7 +51,7 @@ theorem template_value_preserved_partial (strict : Bool) (s : List Nat)
 
 /-- the hypotheses are satisfiable by literals that exercise the rewriting: `'a\x41\'"\n</script>\<LF>é$\{'` -/
 example : wfLit false ("'a\\x41\\'\"\\n</script>\\\n".toList.map Char.toNat ++ [195, 169] ++ "$\\{'".toList.map Char.toNat) ∧
-    Guard ((("'a\\x41\\'\"\\n</script>\\\n".toList.map Char.toNat ++ [195, 169] ++ "$\\{'".toList.map Char.toNat).drop 1).dropLast) = true := by
+    NoNul ((("'a\\x41\\'\"\\n</script>\\\n".toList.map Char.toNat ++ [195, 169] ++ "$\\{'".toList.map Char.toNat).drop 1).dropLast) = true := by
   decide
 
 /-! ## well-formedness of the output -/
@@ -59,7 +60,7 @@ example : wfLit false ("'a\\x41\\'\"\\n</script>\\\n".toList.map Char.toNat ++ [
     `${` in a template, every escape sequence legal in that mode) — corollary of value preservation, same fragment -/
 theorem string_wellformed_partial (strict allowTemplate : Bool) (s : List Nat)
     (hq : s.head? = some 39 ∨ s.head? = some 34) (hw : wfLit strict s)
-    (hg : Guard ((s.drop 1).dropLast) = true) : wfLit strict (minifyString allowTemplate s) := by
+    (hg : NoNul ((s.drop 1).dropLast) = true) : wfLit strict (minifyString allowTemplate s) := by
   unfold wfLit
   rw [string_value_preserved_partial strict allowTemplate s hq hw hg]
   exact hw
